@@ -356,4 +356,8 @@ def exRaw : List Tx :=
 example : WellFormed exRaw ∧ noEventLines "A" exRaw ∧ oneSellPerDay "A" exRaw ∧ ¬ noEventLines "B" exRaw := by
   decide +kernel
 
+/-- the order in which `process_sell` tries the rules, as the translator reads it on every run (group
+    `cascade`): Same Day, then the 30-day rule, then the Section 104 pool — the order `sellStep` models -/
+theorem C01_cascade_as_modelled : Cgt.matchCascade = ["same_day", "bed_and_breakfast", "section104"] := by decide
+
 end Cgt.C01
